@@ -107,4 +107,299 @@ theorem bigIterate_native (n : Nat) (vals : List Int) :
         List.getD_eq_getElem?_getD, List.getElem?_eq_getElem hlt]
       rfl
 
+/-! ### the degraded (bitset) mode -/
+
+def BsR (m : Nat) (xs : List Int) (P N : Nat) : Prop :=
+  P % 2 = 1 ∧ P < 2^m ∧ N < 2^m ∧
+  (∀ j : Nat, 1 ≤ j → P.testBit j = decide ((j:Int) ∈ xs)) ∧
+  (∀ j : Nat, N.testBit j = decide (-(j:Int) ∈ xs))
+
+theorem or_odd (a b : Nat) (ha : a % 2 = 1) : (a ||| b) % 2 = 1 := by
+  have := Nat.or_mod_two_pow (a := a) (b := b) (n := 1)
+  rw [Nat.pow_one, ha] at this
+  rw [this]
+  rcases Nat.mod_two_eq_zero_or_one b with h | h <;> rw [h] <;> rfl
+
+theorem BsR_init (m : Nat) (hm : 1 ≤ m) : BsR m [] 1 0 := by
+  refine ⟨rfl, ?_, Nat.two_pow_pos m, ?_, by simp⟩
+  · exact Nat.one_lt_two_pow (by omega)
+  · intro j hj
+    have := Nat.testBit_two_pow (n := 0) (m := j)
+    rw [Nat.pow_zero] at this
+    rw [this]; simp; omega
+
+theorem BsR_congr (m : Nat) (xs ys : List Int) (P N : Nat) (h : ∀ v, v ∈ xs ↔ v ∈ ys)
+    (hr : BsR m xs P N) : BsR m ys P N := by
+  obtain ⟨h1, h2, h3, h4, h5⟩ := hr
+  refine ⟨h1, h2, h3, ?_, ?_⟩
+  · intro j hj; rw [h4 j hj]; exact decide_eq_decide.mpr (h _)
+  · intro j; rw [h5 j]; exact decide_eq_decide.mpr (h _)
+
+theorem assBs_ok (m : Nat) (xs : List Int) (P N : Nat) (x : Int)
+    (hx : -(m:Int) < x ∧ x < (m:Int)) (h : BsR m xs P N) :
+    BsR m (xs ++ [x]) (assBs P N x).1 (assBs P N x).2 := by
+  obtain ⟨h1, h2, h3, h4, h5⟩ := h
+  unfold assBs
+  by_cases hp : x > 0
+  · have hpx : 2^x.toNat < 2^m := two_pow_lt _ _ (by omega)
+    simp only [hp, if_true, Nat.one_shiftLeft]
+    refine ⟨or_odd _ _ h1, Nat.or_lt_two_pow h2 hpx, h3, ?_, ?_⟩
+    · intro j hj
+      simp only [Nat.testBit_or, Nat.testBit_two_pow, h4 j hj, List.mem_append, List.mem_singleton]
+      by_cases a : (j:Int) ∈ xs <;> by_cases b : (j:Int) = x <;> simp [a, b] <;> omega
+    · intro j
+      simp only [h5 j, List.mem_append, List.mem_singleton]
+      have b : ¬ (-(j:Int) = x) := by omega
+      simp [b]
+  · have hpx : 2^(-x).toNat < 2^m := two_pow_lt _ _ (by omega)
+    simp only [hp, if_false, Nat.one_shiftLeft]
+    refine ⟨h1, h2, Nat.or_lt_two_pow h3 hpx, ?_, ?_⟩
+    · intro j hj
+      simp only [h4 j hj, List.mem_append, List.mem_singleton]
+      have b : ¬ ((j:Int) = x) := by omega
+      simp [b]
+    · intro j
+      simp only [Nat.testBit_or, Nat.testBit_two_pow, h5 j, List.mem_append, List.mem_singleton]
+      by_cases a : -(j:Int) ∈ xs <;> by_cases b : -(j:Int) = x <;> simp [a, b] <;> omega
+
+theorem assBs_foldl (m : Nat) :
+    ∀ (vals xs : List Int) (pn : Nat × Nat), (∀ v ∈ vals, -(m:Int) < v ∧ v < (m:Int)) →
+      BsR m xs pn.1 pn.2 →
+      BsR m (xs ++ vals) (vals.foldl (fun (pn : Nat × Nat) v => assBs pn.1 pn.2 v) pn).1
+        (vals.foldl (fun (pn : Nat × Nat) v => assBs pn.1 pn.2 v) pn).2 := by
+  intro vals
+  induction vals with
+  | nil => intro xs pn _ h; simpa using h
+  | cons y ys ih =>
+    intro xs pn hys h
+    have := ih (xs ++ [y]) (assBs pn.1 pn.2 y) (fun v hv => hys v (by simp [hv]))
+      (assBs_ok m xs pn.1 pn.2 y (hys y (by simp)) h)
+    simpa using this
+
+/-! ### representation invariant -/
+
+def BigR (n : Nat) (xs : List Int) : Big → Prop
+  | .native vals => vals.length ≤ n ∧ vals.Pairwise sLt ∧ ∀ v, v ∈ vals ↔ v ∈ xs
+  | .bits P N => BsR (32 * n) xs P N
+
+theorem assBig_native (n : Nat) (vals : List Int) (x : Int) :
+    assBig n (.native vals) x =
+      if vals.length < n then .native (assInt vals x)
+      else .bits
+        (assBs (vals.foldl (fun (pn : Nat × Nat) v => assBs pn.1 pn.2 v) (1, 0)).1
+               (vals.foldl (fun (pn : Nat × Nat) v => assBs pn.1 pn.2 v) (1, 0)).2 x).1
+        (assBs (vals.foldl (fun (pn : Nat × Nat) v => assBs pn.1 pn.2 v) (1, 0)).1
+               (vals.foldl (fun (pn : Nat × Nat) v => assBs pn.1 pn.2 v) (1, 0)).2 x).2 := rfl
+
+theorem assBig_bits (n P N : Nat) (x : Int) :
+    assBig n (.bits P N) x = .bits (assBs P N x).1 (assBs P N x).2 := rfl
+
+theorem BigR_step (n : Nat) (hn : 1 ≤ n) (xs : List Int) (bi : Big) (x : Int)
+    (hx : -((32 * n : Nat) : Int) < x ∧ x < ((32 * n : Nat) : Int))
+    (hxs : ∀ v ∈ xs, -((32 * n : Nat) : Int) < v ∧ v < ((32 * n : Nat) : Int)) (h : BigR n xs bi) :
+    BigR n (xs ++ [x]) (assBig n bi x) := by
+  cases bi with
+  | bits P N =>
+    rw [assBig_bits]
+    exact assBs_ok (32 * n) xs P N x hx h
+  | native vals =>
+    obtain ⟨h1, h2, h3⟩ := h
+    rw [assBig_native]
+    by_cases hl : vals.length < n
+    · rw [if_pos hl]
+      refine ⟨?_, assInt_sorted x vals h2, ?_⟩
+      · have := assInt_length x vals; omega
+      · intro v
+        rw [assInt_mem, List.mem_append, List.mem_singleton, h3 v]
+    · rw [if_neg hl]
+      have hf := assBs_foldl (32 * n) vals [] (1, 0) (fun v hv => hxs v ((h3 v).mp hv))
+        (BsR_init (32 * n) (by omega))
+      rw [List.nil_append] at hf
+      exact assBs_ok (32 * n) xs _ _ x hx (BsR_congr _ _ _ _ _ h3 hf)
+
+theorem BigR_foldl (n : Nat) (hn : 1 ≤ n) :
+    ∀ (ys xs : List Int) (bi : Big),
+      (∀ v ∈ xs, -((32 * n : Nat) : Int) < v ∧ v < ((32 * n : Nat) : Int)) →
+      (∀ v ∈ ys, -((32 * n : Nat) : Int) < v ∧ v < ((32 * n : Nat) : Int)) → BigR n xs bi →
+      BigR n (xs ++ ys) (ys.foldl (assBig n) bi) := by
+  intro ys
+  induction ys with
+  | nil => intro xs bi _ _ h; simpa using h
+  | cons y ys ih =>
+    intro xs bi hxs hys h
+    have := ih (xs ++ [y]) (assBig n bi y)
+      (by intro v hv; rcases List.mem_append.mp hv with a | a
+          · exact hxs v a
+          · simp at a; subst a; exact hys _ (by simp))
+      (fun v hv => hys v (by simp [hv]))
+      (BigR_step n hn xs bi y (hys y (by simp)) hxs h)
+    simpa using this
+
+theorem BigR_insertAll (n : Nat) (hn : 1 ≤ n) (xs : List Int)
+    (hxs : ∀ v ∈ xs, -((32 * n : Nat) : Int) < v ∧ v < ((32 * n : Nat) : Int)) :
+    BigR n xs (xs.foldl (assBig n) Big.empty) := by
+  have := BigR_foldl n hn xs [] Big.empty (by simp) hxs ⟨by simp, by simp, by simp⟩
+  simpa using this
+
+/-! ### one call of `bigNext` in bitset mode, case by case -/
+
+theorem bigNegs_none (n s N : Nat) (h : N >>> s = 0) : bigNegs n s N = (0, 0) := by
+  unfold bigNegs
+  simp only []
+  rw [if_neg (by simp [h])]
+
+theorem bigNegs_some (n s N : Nat) (h : N >>> s ≠ 0) :
+    bigNegs n s N = (-((s + ctz (32 * n) (N >>> s) : Nat) : Int), 32 * n + (s + ctz (32 * n) (N >>> s) + 1)) := by
+  unfold bigNegs
+  simp only []
+  rw [if_pos h]
+  congr 1
+  omega
+
+/-- `bigNext` in bitset mode once the `0` case and the `iter = 0` start are out of the way -/
+def bigNextB (n it P N : Nat) : Int × Nat :=
+  if it < 32 * n then
+    let b := P >>> it
+    if b ≠ 0 then
+      let r := it + ctz (32 * n) b
+      ((r : Int), if r + 1 = 32 * n then r + 2 else r + 1)
+    else bigNegs n 1 N
+  else if it > 32 * n ∧ it < 64 * n then bigNegs n (it - 32 * n) N
+  else (0, 0)
+
+theorem bigNext_bits (n iter P N : Nat) :
+    bigNext n iter (.bits P N) =
+      if iter = 0 ∧ N % 2 = 1 then (0, 1) else bigNextB n (if iter = 0 then 1 else iter) P N := rfl
+
+theorem bigNext_zero (n P N : Nat) (h0 : N % 2 = 1) : bigNext n 0 (.bits P N) = (0, 1) := by
+  rw [bigNext_bits, if_pos ⟨rfl, h0⟩]
+
+theorem bigNext_zero' (n P N : Nat) (h0 : N % 2 = 0) :
+    bigNext n 0 (.bits P N) = bigNext n 1 (.bits P N) := by
+  have hA : ¬ (0 = 0 ∧ N % 2 = 1) := by omega
+  have hB : ¬ (1 = 0 ∧ N % 2 = 1) := by omega
+  rw [bigNext_bits, bigNext_bits, if_neg hA, if_neg hB, if_pos rfl, if_neg (by omega : ¬ (1 = 0))]
+
+theorem bigNext_nz (n P N iter : Nat) (h : iter ≠ 0) :
+    bigNext n iter (.bits P N) = bigNextB n iter P N := by
+  rw [bigNext_bits, if_neg (fun hc => h hc.1), if_neg h]
+
+theorem bigNext_neg (n P N s : Nat) (hs : 1 ≤ s) (hsn : s < 32 * n) :
+    bigNext n (32 * n + s) (.bits P N) = bigNegs n s N := by
+  rw [bigNext_nz n P N (32 * n + s) (by omega)]
+  unfold bigNextB
+  rw [if_neg (by omega), if_pos (by omega), show 32 * n + s - 32 * n = s by omega]
+
+theorem bigNext_end (n P N s : Nat) (hn : 1 ≤ n) (hs : 32 * n ≤ s) :
+    bigNext n (32 * n + s) (.bits P N) = (0, 0) := by
+  rw [bigNext_nz n P N (32 * n + s) (by omega)]
+  unfold bigNextB
+  rw [if_neg (by omega), if_neg (by omega)]
+
+theorem bigNext_pos_none (n P N iter : Nat) (h1 : 1 ≤ iter) (hi : iter < 32 * n) (h : P >>> iter = 0) :
+    bigNext n iter (.bits P N) = bigNegs n 1 N := by
+  rw [bigNext_nz n P N iter (by omega)]
+  unfold bigNextB
+  simp only []
+  rw [if_pos hi, if_neg (by simp [h])]
+
+theorem bigNext_pos_some (n P N iter : Nat) (h1 : 1 ≤ iter) (hi : iter < 32 * n) (h : P >>> iter ≠ 0) :
+    bigNext n iter (.bits P N) =
+      (((iter + ctz (32 * n) (P >>> iter) : Nat) : Int),
+        if iter + ctz (32 * n) (P >>> iter) + 1 = 32 * n then 32 * n + 1
+        else iter + ctz (32 * n) (P >>> iter) + 1) := by
+  rw [bigNext_nz n P N iter (by omega)]
+  unfold bigNextB
+  simp only []
+  rw [if_pos hi, if_pos h]
+  congr 1
+  split <;> omega
+
+/-! ### iteration in bitset mode -/
+
+theorem bigIterate_neg (n P N : Nat) (hn : 1 ≤ n) (hN : N < 2^(32 * n)) :
+    ∀ fuel s, 1 ≤ s → s ≤ 32 * n → (32 * n - s) + 1 ≤ fuel →
+      bigIterate n (.bits P N) fuel (32 * n + s) =
+        some ((setBits N s (32 * n)).map (fun (j : Nat) => -(j:Int))) := by
+  intro fuel
+  induction fuel with
+  | zero => intro s _ _ h; omega
+  | succ f ih =>
+    intro s hs hsn hf
+    rw [bigIterate_succ]
+    by_cases he : 32 * n ≤ s
+    · rw [bigNext_end n P N s hn he, setBits_nil_of_ge _ _ _ he]; rfl
+    · rw [bigNext_neg n P N s hs (by omega)]
+      by_cases hz : N >>> s = 0
+      · rw [bigNegs_none n s N hz, setBits_none _ _ _ ((shr_eq_zero_iff _ _).mp hz)]; rfl
+      · obtain ⟨a1, a2, a3, a4⟩ := nsb_spec (32 * n) N s hN hz
+        rw [bigNegs_some n s N hz]
+        simp only []
+        rw [if_neg (by omega), ih _ (by omega) (by omega) (by omega), setBits_next _ s _ _ a2 a3 a1 a4]
+        rfl
+
+theorem bigIterate_pos (n P N : Nat) (hP : P < 2^(32 * n)) (hN : N < 2^(32 * n)) :
+    ∀ fuel iter, 1 ≤ iter → iter < 32 * n → (32 * n - iter) + 32 * n + 1 ≤ fuel →
+      bigIterate n (.bits P N) fuel iter =
+        some ((setBits P iter (32 * n)).map (fun (j : Nat) => (j:Int)) ++
+          (setBits N 1 (32 * n)).map (fun (j : Nat) => -(j:Int))) := by
+  intro fuel
+  induction fuel with
+  | zero => intro iter _ _ h; omega
+  | succ f ih =>
+    intro iter h1 hi hf
+    by_cases hz : P >>> iter = 0
+    · have : bigIterate n (.bits P N) (f+1) iter = bigIterate n (.bits P N) (f+1) (32 * n + 1) := by
+        rw [bigIterate_succ, bigIterate_succ, bigNext_pos_none n P N iter h1 hi hz,
+          bigNext_neg n P N 1 (by omega) (by omega)]
+      rw [this, bigIterate_neg n P N (by omega) hN (f+1) 1 (by omega) (by omega) (by omega),
+        setBits_none _ _ _ ((shr_eq_zero_iff _ _).mp hz)]
+      rfl
+    · obtain ⟨a1, a2, a3, a4⟩ := nsb_spec (32 * n) P iter hP hz
+      rw [bigIterate_succ, bigNext_pos_some n P N iter h1 hi hz]
+      simp only []
+      rw [setBits_next _ iter _ _ a2 a3 a1 a4]
+      by_cases he : iter + ctz (32 * n) (P >>> iter) + 1 = 32 * n
+      · rw [if_pos he, if_neg (by omega),
+          bigIterate_neg n P N (by omega) hN f 1 (by omega) (by omega) (by omega),
+          setBits_nil_of_ge P (iter + ctz (32 * n) (P >>> iter) + 1) (32 * n) (by omega)]
+        rfl
+      · rw [if_neg he, if_neg (by omega), ih _ (by omega) (by omega) (by omega)]
+        rfl
+
+theorem bigIterate_bits (n : Nat) (hn : 1 ≤ n) (P N : Nat) (hP : P < 2^(32 * n)) (hN : N < 2^(32 * n))
+    (fuel : Nat) (hf : 64 * n + 2 ≤ fuel) :
+    bigIterate n (.bits P N) fuel 0 = some ((if N % 2 = 1 then [(0:Int)] else []) ++
+      (setBits P 1 (32 * n)).map (fun (j : Nat) => (j:Int)) ++
+      (setBits N 1 (32 * n)).map (fun (j : Nat) => -(j:Int))) := by
+  obtain ⟨f, rfl⟩ : ∃ f, fuel = f + 1 := ⟨fuel - 1, by omega⟩
+  by_cases h0 : N % 2 = 1
+  · rw [bigIterate_succ, bigNext_zero n P N h0]
+    simp only []
+    rw [if_neg (by omega), bigIterate_pos n P N hP hN f 1 (by omega) (by omega) (by omega), if_pos h0]
+    rfl
+  · have : bigIterate n (.bits P N) (f+1) 0 = bigIterate n (.bits P N) (f+1) 1 := by
+      rw [bigIterate_succ, bigIterate_succ, bigNext_zero' n P N (by omega)]
+    rw [this, bigIterate_pos n P N hP hN (f+1) 1 (by omega) (by omega) (by omega), if_neg h0]
+    rfl
+
+/-! ### iteration under the invariant -/
+
+theorem bigIterate_of_R (n : Nat) (hn : 1 ≤ n) (xs : List Int) (bi : Big)
+    (hxs : ∀ v ∈ xs, -((32 * n : Nat) : Int) < v ∧ v < ((32 * n : Nat) : Int)) (h : BigR n xs bi)
+    (fuel : Nat) (hf : 64 * n + 2 ≤ fuel) :
+    bigIterate n bi fuel 0 = some (canonS (32 * n - 1) xs) := by
+  cases bi with
+  | native vals =>
+    obtain ⟨h1, h2, h3⟩ := h
+    rw [bigIterate_native n vals fuel 0 (by omega), List.drop_zero]
+    congr 1
+    exact eq_canonS (32 * n - 1) xs vals (fun v hv => by have := hxs v hv; omega) h2 h3
+  | bits P N =>
+    obtain ⟨_, h2, h3, h4, h5⟩ := h
+    rw [bigIterate_bits n hn P N h2 h3 fuel hf]
+    have := setBits_eq_canonS (32 * n - 1) P N xs h4 h5
+    rw [show 32 * n - 1 + 1 = 32 * n by omega] at this
+    rw [this]
+
 end Echse.Bitint
